@@ -250,8 +250,37 @@ func propDERSig(t *rapid.T) {
 		if err != nil || lib.ScInt(pr).Cmp(r) != 0 || lib.ScInt(ps).Cmp(s) != 0 {
 			t.Fatalf("Parse(Build(%x,%x)) failed: %v", r, s, err)
 		}
+		// An encoding that was built belongs to the caller, who keeps it (and appends a sighash byte to it)
+		// while other signatures are built: build-then-parse stays the identity for an encoding that is
+		// parsed later, too.
+		want := ref.EncodeDERSig(r, s)
+		other := secec.BuildASN1Signature(lib.Sc(s), lib.Sc(r))
+		_ = append(enc, 0x01)
+		if sp := enc[len(enc):cap(enc)]; len(sp) > 0 {
+			for i := range sp {
+				sp[i] = 0xa5
+			}
+		}
+		third := secec.BuildCompactSignature(lib.Sc(r), lib.Sc(s))
+		if !bytes.Equal(enc, want) || !bytes.Equal(other, ref.EncodeDERSig(s, r)) || !bytes.Equal(third, append(ref.B32(r), ref.B32(s)...)) {
+			t.Fatalf("encodings built earlier changed when later ones were built / the caller appended to one: BuildASN1Signature(%x,%x) now reads %x, the one with r and s swapped %x, the compact one %x", r, s, enc, other, third)
+		}
+		for _, h := range heldEncodings {
+			if !bytes.Equal(h.got, h.want) {
+				t.Fatalf("an encoding built in an earlier case (%x) reads %x now", h.want, h.got)
+			}
+		}
+		heldEncodings = append(heldEncodings, heldEncoding{enc, want})
+		if len(heldEncodings) > 8 {
+			heldEncodings = heldEncodings[1:]
+		}
 	}
 }
+
+// heldEncodings are signatures built in earlier cases of this process that the caller still holds.
+type heldEncoding struct{ got, want []byte }
+
+var heldEncodings []heldEncoding
 
 func TestC12_DERSig(t *testing.T) { rapid.Check(t, propDERSig) }
 
